@@ -105,7 +105,9 @@ func genLogical(t *rapid.T) logical {
 		Scheme:   rapid.SampledFrom([]string{"http", "https"}).Draw(t, "scheme"),
 		Host:     rapid.SampledFrom([]string{"svc.example.com", "api.example.com:8443"}).Draw(t, "host"),
 		RawPath:  "/svc/" + idRaw + "/" + strings.Join(restRaw, "/"),
-		RawQuery: rapid.SampledFrom([]string{"", "a=1", "a=1&b=two&a=3", "q=x%20y"}).Draw(t, "query"),
+		RawQuery: rapid.SampledFrom([]string{"", "a=1", "a=1&b=two&a=3", "q=x%20y",
+			// (a question mark and a slash are ordinary characters of a query, RFC 3986, section 3.4)
+			"return_to=https://app.example.com/items?tab=2&lang=en", "q=what?&page=2", "a=1;b=2", "a=%26&b=%3D%3F", "flag", "a=&=b&&"}).Draw(t, "query"),
 	}
 
 	l.HdrName = rapid.SampledFrom([]string{"X-Custom", "X-Tenant-Id", "Accept-Language"}).Draw(t, "hdrName")
